@@ -293,9 +293,10 @@ template<typename R, typename... Args> struct Sys {
             for (auto it = has_subject.begin(); it != has_subject.end();) if (!after.count(*it)) it = has_subject.erase(it); else ++it;
             // an invalidated observer that no notify has reached yet is still stored: its handle must stay usable (the subject behind it must not be gone)
             for (size_t i = 0; i < subs.size(); i++) if (subs[i].pending && !handles[i].is_valid()) bad("shrink:pending-handle", fmt("after shrink(%s) the handle of the invalidated but not yet removed observer %zu reports invalid", pat_str(p).c_str(), i));
-            if (!check || !c13) break;      // the removal rules are C13's clauses: not judged by the C06 run (which still compares every delivery after the shrink with the model)
+            if (!check) break;
+            last_removed.clear(); for (int k : before) if (!after.count(k)) last_removed.push_back(k);      // (both runs subscribe these again at once, see bfs)
+            if (!c13) break;      // the removal rules are C13's clauses: not judged by the C06 run (which still compares every delivery after the shrink with the model)
             for (int k : after) if (!before.count(k)) bad("shrink:key-appeared", "shrink(" + pat_str(p) + ") made key " + path_str(U->all_keys[k]) + " appear");
-            last_removed.clear(); for (int k : before) if (!after.count(k)) last_removed.push_back(k);
             for (int k : before) if (!after.count(k)) {
                 const Path &gone = U->all_keys[k];
                 for (auto &s : subs) if (s.live || s.pending) { const Path &sk = U->sub_keys[s.key]; if (sk.size() >= gone.size() && std::equal(gone.begin(), gone.end(), sk.begin())) bad("shrink:live-key-removed", "shrink(" + pat_str(p) + ") removed key " + path_str(gone) + " although " + path_str(sk) + " still has a live subscription"); }
@@ -359,9 +360,11 @@ template<typename R, typename... Args> struct Sys {
                 // a key subscribed again right after a shrink removed it: the new observer is reached through its own key, the key exists, depth() agrees
                 int pi = concrete_pattern(o->arg);
                 bool saved = c13; c13 = false; check_notify(pi, {}, "re-subscribed after shrink: "); c13 = saved;
+                if (c13) {      // exists() and depth() are C13's clauses
                 if (!router->exists(K.sub_rk(o->arg))) bad("exists:live-key-missing", "key " + path_str(U->sub_keys[o->arg]) + " was subscribed again after a shrink had removed it, but exists() is false");
                 size_t maxlen = 0; for (int kk : stored()) maxlen = std::max(maxlen, U->all_keys[kk].size());
                 if (router->depth() != 1 + maxlen) bad("depth", fmt("depth() == %zu after a re-subscribe, expected %zu", router->depth(), 1 + maxlen));
+                }
             }
             bool has_shrink = o && o->kind == SHRINK; for (auto &p : h) has_shrink |= p.kind == SHRINK;
             if (full && c13 && has_shrink) {
